@@ -1,6 +1,6 @@
 (** Extraction of the executable model.  Only [ExtrOcamlBasic] and [ExtrOcamlString] are used:
     numbers stay the Coq inductive types. *)
 From Coq Require Import ExtrOcamlBasic ExtrOcamlString.
-From EV Require Import Model.Script Spec.SpecRun Spec.SpecRunHash Spec.SpecRunSet Spec.SpecRunZSet Model.AclWorld Spec.SpecRunAcl Model.ScriptEvict Spec.SpecEvict Spec.SpecRunPubSub Model.AofRun Spec.SpecRunDurable Model.SnapServer Spec.SpecRunWire Model.ScriptExpiry Spec.SpecRunExpiry Model.ConcRun Model.RaftRun.
+From EV Require Import Model.Script Spec.SpecRun Spec.SpecRunHash Spec.SpecRunSet Spec.SpecRunZSet Model.AclWorld Spec.SpecRunAcl Model.ScriptEvict Spec.SpecEvict Spec.SpecRunPubSub Model.AofRun Spec.SpecRunDurable Model.SnapServer Spec.SpecRunWire Model.ScriptExpiry Spec.SpecRunExpiry Model.ConcRun Model.RaftRun Spec.SpecRunKV.
 Extraction Language OCaml.
-Extraction "model.ml" run_script run_spec15 run_spec14 run_spec16 run_spec17 run_spec17p run_acl_script run_spec06 run_model08 run_spec08 run_model18 run_spec18 run_aof run_spec02 run_snap run_spec12 run_model04 run_spec04 run_conc_script run_raft.
+Extraction "model.ml" run_script run_spec15 run_spec14 run_spec16 run_spec17 run_spec17p run_acl_script run_spec06 run_model08 run_spec08 run_model18 run_spec18 run_aof run_spec02 run_snap run_spec12 run_model04 run_spec04 run_conc_script run_raft run_spec01.
